@@ -314,7 +314,7 @@ order — **fixed** `c756233`; making the remaining hostile features fixed
 strata then showed that source pages collide (`@../k@`/`@-k@`, duplicate
 source pointers, a source pointer equal to a person's page key) — **fixed**
 `f30cb35` (unique names as for individuals and places). The generator now has
-13 hostile features, each the *first* feature of at least two documents of
+15 hostile features, each the *first* feature of at least two documents of
 every quick run.
 
 """
